@@ -138,6 +138,10 @@ def z3eval(term, pt):
 def close(a, b, rtol=1e-9, atol=1e-9):
     if a != a or b != b:
         return (a != a) and (b != b)
+    if a == b:
+        return True
+    if a in (float("inf"), float("-inf")) or b in (float("inf"), float("-inf")):
+        return False
     return abs(a - b) <= atol + rtol * max(abs(a), abs(b))
 
 
